@@ -537,7 +537,7 @@ func TestC09Prop(t *testing.T) {
 		nActions := rapid.IntRange(3, 15).Draw(t, "nactions")
 		nontrivial := false
 		for a := 0; a < nActions; a++ {
-			kind := rapid.SampledFrom([]string{"set-get", "set-get", "set-get-many", "set-accessories", "put", "put", "put-missing"}).Draw(t, "action")
+			kind := rapid.SampledFrom([]string{"set-get", "set-get", "set-get-many", "set-accessories", "put", "put", "put-missing", "put-many", "accessories-at-chunk-boundary"}).Draw(t, "action")
 			switch kind {
 			case "set-get", "set-get-many", "set-accessories":
 				nset := 1
@@ -634,6 +634,88 @@ func TestC09Prop(t *testing.T) {
 					flags["multi-frame-response"] = true
 					nontrivial = true
 				}
+			case "accessories-at-chunk-boundary":
+				// the attribute database is padded (through the length of one string value) to the sizes at which a
+				// chunked writer, a frame cutter or a buffered writer changes what it does: k*2048 and its neighbours
+				_, size, err := w.checkAccessories()
+				if err != nil {
+					t.Fatalf("%v\nhistory: %v", err, hist)
+				}
+				cur := len(w.churn.GetValue())
+				delta := rapid.SampledFrom([]int{0, 0, 0, -1, 1, 1024, 2048}).Draw(t, "offset")
+				want := cur + (2048-size%2048)%2048 + delta
+				if want < 1 {
+					want += 2048
+				}
+				w.churn.SetValue(strings.Repeat("p", want))
+				frames, size2, err := w.checkAccessories()
+				hist = append(hist, fmt.Sprintf("GET /accessories padded to %d bytes = %d*2048%+d (%d frames)", size2, size2/2048, size2%2048, frames))
+				if err != nil {
+					t.Fatalf("%v\nhistory: %v", err, hist)
+				}
+				if size2%2048 == 0 {
+					flags["accessories=k*2048"] = true
+				}
+				w.churn.SetValue("churn")
+			case "put-many":
+				// one request that writes several characteristics, each with its own value
+				var cands []*item
+				for _, it := range w.items {
+					if has(it.ch.Perms, "pw") {
+						cands = append(cands, it)
+					}
+				}
+				if len(cands) < 2 {
+					continue
+				}
+				n := rapid.IntRange(2, 4).Draw(t, "entries")
+				var picked []*item
+				var vals []interface{}
+				var entries []string
+				seen := map[*item]bool{}
+				for len(picked) < n {
+					it := cands[rapid.IntRange(0, len(cands)-1).Draw(t, "item")]
+					if seen[it] {
+						if len(seen) == len(cands) {
+							break
+						}
+						continue
+					}
+					seen[it] = true
+					v := genValue(t, it.ch)
+					picked, vals = append(picked, it), append(vals, v)
+					entries = append(entries, fmt.Sprintf(`{"aid":%d,"iid":%d,"value":%s}`, it.aid, it.ch.ID, wireValue(t, v)))
+				}
+				hist = append(hist, fmt.Sprintf("PUT %d entries", len(picked)))
+				before := make([]int, len(picked))
+				olds := make([]interface{}, len(picked))
+				for i, it := range picked {
+					before[i], olds[i] = len(it.remote), it.ch.Value
+				}
+				resp, derr := w.cl.Do("PUT", "/characteristics", refctl.ContentJSON, []byte(`{"characteristics":[`+strings.Join(entries, ",")+`]}`))
+				if derr != nil || (resp.Status != 204 && resp.Status != 200 && resp.Status != 207) {
+					t.Fatalf("PUT with %d entries: %v %v\nhistory: %v", len(picked), derr, resp, hist)
+				}
+				for i, it := range picked {
+					v := vals[i]
+					if has(it.ch.Perms, "pr") {
+						if !sameValue(it.ch.Value, v) && !(isNum(v) && sameNum(it.ch.Value, v)) {
+							t.Fatalf("PUT with %d entries: entry %d wrote %#v to %d.%d (%s, format %s), the application's getter returns %#v\nhistory: %v", len(picked), i, v, it.aid, it.ch.ID, it.ctor, it.ch.Format, it.ch.Value, hist)
+						}
+						it.want = it.ch.Value
+					}
+					changed := !has(it.ch.Perms, "pr") || !(sameNum(olds[i], v) || sameValue(olds[i], v))
+					if changed {
+						if len(it.remote) != before[i]+1 {
+							t.Fatalf("PUT with %d entries: entry %d changed %d.%d (%s) from %#v to %#v: remote-update callback ran %d times\nhistory: %v", len(picked), i, it.aid, it.ch.ID, it.ctor, olds[i], v, len(it.remote)-before[i], hist)
+						}
+						if got := it.remote[len(it.remote)-1]; !(sameNum(got, v) || sameValue(got, v)) {
+							t.Fatalf("PUT with %d entries: entry %d (%d.%d, %s): remote-update callback received %#v, the controller wrote %#v\nhistory: %v", len(picked), i, it.aid, it.ch.ID, it.ctor, got, v, hist)
+						}
+					}
+				}
+				flags["put-many"] = true
+				nontrivial = true
 			case "put-missing":
 				// a write to an id that does not exist (unknown accessory id with an iid that exists elsewhere, iid of
 				// another accessory) is refused and reaches no characteristic at all
